@@ -1,5 +1,6 @@
 import Bxh.Model.Persist
 import Bxh.Model.Chain
+import Bxh.Proofs.ChainCrash
 /-!
 # C11 — the ledger recovers to a consistent height after a crash at any persist point
 -/
@@ -114,5 +115,45 @@ theorem C11_startup_root_genesis (l l2 : Bxh.Ledger.L) (hm : l.maxJ ≠ 0) (h2 :
 /-- non-vacuity: the fully durable commit and the fully lost commit both recover -/
 example : recoverOK 7 (recover 7 { s := true, c := true, b := 5 }) := by decide
 example : recoverOK 7 (recover 7 { s := false, c := false, b := 0 }) := by decide
+
+/-- **a crash from which start-up succeeds loses no block and leaves block store and index store consistent** (the chain side of the
+concrete model `Bxh.Chain`, for the two classes of masks `C11_recover_iff` calls good): a linked chain (`C09`), the commit of its next
+block interrupted so that either nothing of the chain side is complete (index batch missing, at most four of the five blockfile
+tables appended) or all of it is durable; if `ledger.New` opens the store at all, then index, tables, block count and chain meta of
+the reopened node are exactly those from before the block resp. from after it — the node is at the previous or at the new height,
+every block up to that height is stored, hash-linked and found by every lookup (`Linked`), nothing of a half-appended block is left -/
+theorem C11_recovered_chain_is_before_or_after (before after : Bxh.Chain.Node) (blk : Bxh.Chain.Blk) (txs : List String)
+    (ctr : Bxh.KV String Nat) (m : Bxh.Chain.Mask) (n2 : Bxh.Chain.Node)
+    (hL : Bxh.Chain.Linked before) (hM : Bxh.Chain.MetaOk before) (h5 : Bxh.Chain.FiveEven before)
+    (hf : Bxh.Chain.FreshHash before (Bxh.Chain.mkBlk before txs ctr).hash)
+    (hp : Bxh.Chain.persist before txs ctr = some (after, blk))
+    (hgood : (m.c = false ∧ m.b < 5) ∨ (m.c = true ∧ m.b = 5))
+    (hr : Bxh.Chain.reopen (Bxh.Chain.crashed before after m) = .ok n2) :
+    Bxh.Chain.Linked n2 ∧
+    ((n2.idx = before.idx ∧ n2.tbl = before.tbl ∧ n2.blocks = before.blocks ∧ n2.cmeta = before.cmeta) ∨
+     (n2.idx = after.idx ∧ n2.tbl = after.tbl ∧ n2.blocks = after.blocks ∧ n2.cmeta = after.cmeta ∧
+      n2.cmeta.1 = before.cmeta.1 + 1)) := by
+  have hLa : Bxh.Chain.Linked after := Bxh.Chain.persist_linked before after blk txs ctr hL hf hp
+  unfold Bxh.Chain.persist at hp
+  simp only at hp
+  split at hp
+  · cases hp
+  · injection hp with hp
+    injection hp with e1 e2
+    have hfacts := Bxh.Chain.applyBlk_facts before (Bxh.Chain.mkBlk before txs ctr) rfl h5
+    have hat : after.tbl = before.tbl.append (Bxh.Chain.mkBlk before txs ctr) := by rw [← e1]; rfl
+    have hac : after.cmeta.1 = before.cmeta.1 + 1 := by rw [← e1]; rfl
+    have h5a : Bxh.Chain.FiveEven after := by rw [← e1]; exact hfacts.1
+    have hMa : Bxh.Chain.MetaOk after := by rw [← e1]; exact hfacts.2
+    rcases hgood with ⟨hc, hb⟩ | ⟨hc, hb⟩
+    · obtain ⟨g1, g2, g3, g4, g5⟩ := Bxh.Chain.reopen_crashed_before before after _ m n2 hL hM h5 hat hc hb hr
+      exact ⟨g5, Or.inl ⟨g1, g2, g3, g4⟩⟩
+    · obtain ⟨g1, g2, g3, g4, g5⟩ := Bxh.Chain.reopen_crashed_after before after m n2 hLa hMa h5a hc hb hr
+      exact ⟨g5, Or.inr ⟨g1, g2, g3, g4, by rw [g4]; exact hac⟩⟩
+
+/-- non-vacuity: the empty node meets the three hypotheses; its first block's hash is fresh -/
+example : Bxh.Chain.Linked {} ∧ Bxh.Chain.MetaOk {} ∧ Bxh.Chain.FiveEven {} ∧
+    Bxh.Chain.FreshHash {} (Bxh.Chain.mkBlk {} ["t1"] []).hash :=
+  ⟨Bxh.Chain.Linked.init, rfl, ⟨rfl, rfl, rfl, rfl, rfl⟩, fun c hc => by cases hc⟩
 
 end Bxh.Props.C11
